@@ -516,7 +516,7 @@ class World(object):
 class Scenario(object):
     """Real Data + a dependency-graph model."""
 
-    def __init__(self, variant, uid_budget=2, uid_names=('x', 'y', 'd1', 'd2', 'd3', 'd4'), reorders=('rev', 'rot')):
+    def __init__(self, variant, uid_budget=2, uid_names=('x', 'y', 'p1', 'd1', 'd2', 'd3', 'd4'), reorders=('rev', 'rot')):
         self.variant = variant
         self.defs = DEFS[variant]
         self.uid_budget = uid_budget
